@@ -444,6 +444,15 @@ fn raw_injection(rep: &mut Report) {
             lines.push(l);
         }
     }
+    // ... and every hex digit of that frame replaced by a multi-byte sequence (non-ASCII digits and the like)
+    for p in 1..base.len() - 2 {
+        for s in crate::c03::MULTIBYTE {
+            let mut l = base[..p].to_vec();
+            l.extend_from_slice(s);
+            l.extend_from_slice(&base[p + 1..]);
+            lines.push(l);
+        }
+    }
     lines.push(b"\n".to_vec());
     lines.push(b"\r\n".to_vec());
     lines.push(b"garbage\r\n".to_vec());
